@@ -563,7 +563,10 @@ def suite_opaque(ctx, d, pgpy, names):
             if t[0] != 'ok':
                 ctx.fail('opaque', 'harness: fields of a private key with opaque material cannot be read', dict(case, impl=repr(t))); continue
             toks = t[1]
-            mpub = d.call('export ' + toks).split(' ')[0]
+            mpub, mpriv = d.call('export ' + toks).split(' ')
+            # the private key itself is written back as received (repair c516614: no usage octet after the opaque octets; 298df7b: headers count)
+            ctx.expect_eq('opaque', 'bytes(key) of a private key with opaque key material differs from model export(key) / from the octets it was read from',
+                          dict(case, tokens=toks[-300:]), out2(lambda: bytes(key).hex()), ('ok', mpriv) if mpriv == blob.hex() else ('model', mpriv[:200], 'blob', blob.hex()[:200]))
             mtw = d.call('twin ' + toks)
             fp0, before = fps_of(key), out2(lambda: bytes(key).hex())
             got = outcome(lambda: key.pubkey)
@@ -602,6 +605,84 @@ def suite_opaque(ctx, d, pgpy, names):
 
 def fps_of(key):
     return [str(key.fingerprint).lower()] + [str(s.fingerprint).lower() for s in key.subkeys.values()]
+
+
+def key_action_of(pgpy, name):
+    from pgpy.decorators import KeyAction
+    for cell in (getattr(pgpy.PGPKey, name).__closure__ or ()):
+        if isinstance(cell.cell_contents, KeyAction):
+            return cell.cell_contents
+    return None
+
+
+def suite_selected_component(ctx, d, pgpy):
+    """KeyAction checks its conditions on the component usage() SELECTS (repair cab6d36), which may be a subkey: a key whose primary may only
+    certify, with a signing and an encryption subkey.  sign() on the public twin / the loaded public key is dispatched to the public signing
+    subkey and must be refused (is_public); on the private key with ONLY the signing subkey protected and locked it must be refused
+    (is_unlocked) while certify() (primary, unprotected) runs.  For every action the model table gets the attributes of the component the
+    decorator's own usage() selects; nuids / primary are those of the key the method was called on."""
+    from .keys import T0
+    from pgpy.constants import KeyFlags as F, PubKeyAlgorithm as A, EllipticCurveOID as C, SymmetricKeyAlgorithm as S, HashAlgorithm as H, SignatureType
+    with warnings.catch_warnings():
+        warnings.simplefilter('ignore')
+        k = pgpy.PGPKey.new(A.EdDSA, C.Ed25519, created=T0)
+        k.add_uid(pgpy.PGPUID.new('Cert Only'), usage={F.Certify}, created=T0)
+        k.add_subkey(pgpy.PGPKey.new(A.EdDSA, C.Ed25519, created=T0), usage={F.Sign}, created=T0)
+        k.add_subkey(pgpy.PGPKey.new(A.ECDH, C.Curve25519, created=T0), usage={F.EncryptCommunications, F.EncryptStorage}, created=T0)
+        helper = pgpy.PGPKey.new(A.EdDSA, C.Ed25519, created=T0)
+        helper.add_uid(pgpy.PGPUID.new('Helper'), usage={F.Sign, F.Certify}, created=T0)
+        pub = k.pubkey
+        o = out2(lambda: pub.encrypt(pgpy.PGPMessage.new('secret text')))
+        encmsg = o[1] if o[0] == 'ok' else pgpy.PGPMessage.new('plain')
+        loaded = pgpy.PGPKey.from_blob(bytes(pub))[0]
+        selected_subkey = set()
+
+        def run(obj, label, expect_refusal):
+            uid = obj.userids[0]
+            acts = {'sign': lambda: obj.sign('attack at dawn'), 'certify': lambda: obj.certify(uid, SignatureType.Generic_Cert), 'revoke': lambda: obj.revoke(uid),
+                    'revoker': lambda: obj.revoker(helper), 'bind': lambda: obj.bind(helper), 'decrypt': lambda: obj.decrypt(encmsg)}
+            for a, fn in acts.items():
+                ka = key_action_of(pgpy, a)
+
+                def select():
+                    with ka.usage(obj, None) as sel:
+                        return sel
+                so = out2(select)
+                if ka is None or so[0] != 'ok':
+                    ctx.fail('actions', 'harness: cannot ask KeyAction.usage which component it selects', {'op': 'action', 'action': a, 'object': label, 'impl': repr(so)[:120]}); continue
+                sel = so[1]
+                if sel is not obj:
+                    selected_subkey.add((label, a))
+                if obj.is_public and not sel.is_public:
+                    ctx.fail('actions', 'a public object dispatches a private operation to a component that is not public', {'op': 'action', 'action': a, 'object': label})
+                st = dict(nuids=len(obj.userids), primary=obj.is_primary, public=sel.is_public, protected=bool(sel.is_protected),
+                          cleartext=bool(sel._key.unlocked) if not sel.is_public else True)
+                got = classify(out2(fn))
+                model = d.call('action', a, 1, st['nuids'], int(st['primary']), int(st['public']), int(st['protected']), int(st['cleartext']), 1, 1)
+                case = {'op': 'action', 'action': a, 'object': label, 'state': st, 'selected': 'subkey' if sel is not obj else 'self'}
+                ctx.case('actions', (label, a, tuple(sorted(st.items())), sel is not obj), sample=dict(case, impl=got, model=model))
+                if expect_refusal(a, sel) and got == 'run':
+                    ctx.fail('actions', 'a private operation did not raise although the component it is dispatched to has no usable secret material', case)
+                if model == 'run' and got != 'run':
+                    if got.startswith(('attr:', 'incomplete', 'usage', 'nokey')):
+                        ctx.fail('actions', 'decorator refused although the model table lets the operation run', dict(case, impl=got, model=model))
+                    continue
+                ctx.expect_eq('actions', 'outcome of the KeyAction preconditions (on the selected component) differs from the model table', case, got, model)
+
+        run(pub, 'cert-only+subkeys/derived', lambda a, sel: True)
+        run(loaded, 'cert-only+subkeys/loaded-binary', lambda a, sel: True)
+        run(k, 'cert-only+subkeys/private', lambda a, sel: False)
+        sk = list(k.subkeys.values())[0]
+        po = out2(lambda: sk.protect('pw', S.AES128, H.SHA256))
+        if po[0] != 'ok' or not sk.is_protected or sk.is_unlocked or k.is_protected:
+            ctx.notes.append('selected-component: the signing subkey alone could not be protected (%r): locked-subkey rows skipped' % (po,))
+        else:
+            run(k, 'cert-only+subkeys/private, signing subkey locked', lambda a, sel: sel.is_protected and not sel.is_unlocked)
+            run(k.pubkey, 'cert-only+subkeys/derived, signing subkey locked', lambda a, sel: True)
+            with k.unlock('pw'):
+                run(k, 'cert-only+subkeys/private, signing subkey unlocked', lambda a, sel: False)
+        if not any(a == 'sign' for _, a in selected_subkey):
+            ctx.fail('actions', 'harness: sign() was never dispatched to a subkey (the selected-component rows were not exercised)', {'op': 'action', 'object': 'cert-only+subkeys'})
 
 
 def suite_pins(ctx, pgpy):
@@ -683,9 +764,10 @@ def run(ctx):
                 suite_actions(ctx, d, pgpy, n)
         suite_usage_table(ctx, d, pgpy)
         suite_no_uid(ctx, d, pgpy)
+        suite_selected_component(ctx, d, pgpy)
         suite_opaque(ctx, d, pgpy, [n for n in (('ed25519', 'rsa1024') if q else ('ed25519', 'rsa1024', 'p256', 'dsa1024', 'p521')) if n in names])
         ctx.exhaustive.append('KeyAction decision table: 6 private operations x {derived, loaded (binary), loaded (armored), public subkey, '
-                              'private, private locked, private unlocked, twin taken while unlocked, encryption-only key, public / private primary WITHOUT user id (+ add_uid), private primary with opaque material} compared with the model table')
+                              'private, private locked, private unlocked, twin taken while unlocked, encryption-only key, public / private primary WITHOUT user id (+ add_uid), private primary with opaque material, certify-only primary whose signing subkey is the selected component (public / locked / unlocked)} compared with the model table')
         ctx.notes.append('literal secret search (TESTED, not proved): big- and little-endian octets of every secret integer >= 16 octets and the '
                          'encrypted secret blob, over binary export, de-armored export and armor text; the proved statement is non-interference')
         ctx.notes.append('sha1 oracle calls answered by hashlib: %d' % d.oracle_calls)
@@ -743,6 +825,16 @@ def replay(ctx, case):
                     if bytes(key.pubkey) != base:
                         bad.append('forms')
                 return bool(bad)
+            if case.get('op') == 'action' and case.get('object', '').startswith('cert-only+subkeys'):
+                # certify-only primary, signing subkey = the selected component: sign() on the twin, and on the private key while that subkey is locked, must raise
+                from pgpy.constants import KeyFlags as F, PubKeyAlgorithm as A, EllipticCurveOID as C
+                k = pgpy.PGPKey.new(A.EdDSA, C.Ed25519, created=T0)
+                k.add_uid(pgpy.PGPUID.new('Cert Only'), usage={F.Certify}, created=T0)
+                k.add_subkey(pgpy.PGPKey.new(A.EdDSA, C.Ed25519, created=T0), usage={F.Sign}, created=T0)
+                if classify(out2(lambda: k.pubkey.sign('x'))) != 'attr:is_public':
+                    return True
+                list(k.subkeys.values())[0].protect('pw', S.AES128, H.SHA256)
+                return classify(out2(lambda: k.sign('x'))) != 'attr:is_unlocked'
             if case.get('op') == 'opaque-twin' and case.get('blob'):
                 # a private key with opaque key material has no public twin: anything but the refusal is the failure
                 key = pgpy.PGPKey.from_blob(bytes.fromhex(case['blob']))[0]
